@@ -12,6 +12,20 @@ NOTES = "All checks are bounded-exhaustive model checking of the real Go code (h
 NOT_APPLICABLE = {}
 
 TEXT = {
+    "C18": dict(
+        engine="graph (E2)",
+        design_ref="DESIGN.md §3 C18",
+        technique="explicit-state BFS of the real tty.VT with a reference grid console to a fixed point (state includes the console cells); exhaustive event histories on the real VT + shipped console drivers with pixel-exact comparison",
+        text="Part 1: the same fixed-point search as C17 with the console's cells in the state: after every event the console equals the terminal's viewport while active, is untouched while inactive, and equals it again after activation. Part 2: the real tty.VT attached to the real VgaTextConsole and VesaFbConsole (depths 8/16/24/32, padded rows, logo rows, remainder strip, synthetic 8x2/9x2 fonts and the shipped 8x16 font; thorough adds 15 bpp, BGR layouts and all shipped fonts): every history of <=5 (4) events over {a, b, CR, LF, BS, TAB, activate, deactivate}; after every event every framebuffer byte must equal the glyph rendering of the viewport cell in its colours, and logo area, row padding and the strip below the grid must be unchanged.",
+        note="Part 2 uses the reference terminal of C17 as the expected viewport (the VT's buffer is not visible from package console_test).",
+    ),
+    "C19": dict(
+        engine="choice (E1)",
+        design_ref="DESIGN.md §3 C19",
+        technique="full product of console geometries x argument boundary values per operation on the real drivers (loop-instrumented for a deterministic watchdog) against a pixel-level reference",
+        text="For every framebuffer configuration (grids 1..3 x 1..3, 3-7 fonts 8..16 px wide incl. the shipped ones, depths 8/15/16/24/32 with four mask layouts, pitch padding, logo rows, remainder rows, pristine and fully written pre-states) and every text-mode grid 1..4 x 1..4 and 80x25, Write, Fill and Scroll are called with every argument from {0,1,2,dim-1,dim,dim+1,2^31,2^32-2,2^32-1}: Write changes exactly the addressed cell's pixels (glyph bits in fg, rest in bg, packed for the pixel format) and nothing for off-grid coordinates; Fill changes exactly the clamped+clipped rectangle; Scroll by 1..rows moves the lines and leaves the logo alone, any other count changes nothing; no byte outside the addressed cells, in the padding or outside the framebuffer (bounds panic) is touched; no operation loops beyond 10^6 instrumented iterations.",
+        note="Vacated lines after a scroll are unconstrained; text-mode colour indices >= 15 only assert 'addressed cell, same character'.",
+    ),
     "C10": dict(
         engine="choice (E1)",
         design_ref="DESIGN.md §3 C10",
